@@ -34,8 +34,9 @@ Example listing_of_1_to_6 : listing [1; 2; 3; 4; 5; 6] = [2; 1; 6; 5; 4; 3].
 Proof. vm_compute. reflexivity. Qed.
 
 (* publication, cleanup and notification: for EVERY schedule of the steps of arbitrarily many overlapping
-   publications (Start / W / U / R / TL / TR of Model/Publish.v, disabled steps are no-ops) with crashes and
-   restarts anywhere, starting from a storage that holds checkpoint [base] (0 = empty), at EVERY point:
+   publications (Start / W / U / R / TL / TR of Model/Publish.v, disabled steps are no-ops) with crashes, plain
+   restarts and starts from a savepoint (Rewind: ids of the abandoned timeline are issued again and their files
+   rewritten) anywhere, starting from a storage that holds checkpoint [base] (0 = empty), at EVERY point:
    - the snapshot file of the newest checkpoint ever written is in storage, and no spawned Remove call names it;
    - LoadCheckpoint on the storage as it is now returns exactly that checkpoint (crash point = now);
    - the retained-id notifications received so far are strictly increasing, name only written checkpoints, and
@@ -79,3 +80,12 @@ Proof. exact d17_repaired. Qed.
 Theorem retain_only_keeps_newest : forall n l, In n l -> In (list_max l) (retain_only [n] l).
 Proof. exact retain_only_keeps_newest_lemma. Qed.
 Print Assumptions retain_only_keeps_newest.
+
+(* non-vacuity of the rewind regime: savepoint at 1, run to 3, start again from 1, reach 3 again, cleanup:
+   file 3 (rewritten) is the newest and is what a restart loads *)
+Example rewind_schedule :
+  let s := exec prepaired (boot prepaired 0)
+             [Start 1; W 1; U 1; Start 2; W 2; U 2; R 0; Start 3; W 3; U 3; R 0; Rewind 1;
+              Start 2; W 2; U 2; R 0; Start 3; W 3; U 3; R 0] in
+  files s = [3] /\ completed s = [3] /\ load false (files s) = Some 3.
+Proof. vm_compute. repeat split. Qed.
